@@ -1,6 +1,6 @@
 """C07 — Catalogue units carry their defined scales, prefixes and symbols."""
 ID = "C07"
-LEAN_MODULES = ["QtyModel.Props.C07"]
+LEAN_MODULES = ["QtyModel.Props.C07", "QtyModel.Props.TieCodegen"]
 HARNESS_GROUPS = ()
 RULE = ("registry dump of every predefined quantity (14 catalogue types in both back-ends, 4 astronomical types in f64): "
         "what the COMPILED crate reports for name/symbol/si_prefix/scale of every iterated unit, compared (a) with the "
